@@ -129,9 +129,12 @@ func (rn *runner) ask(line string) string {
 	}
 	a, err := rn.drv.Ask(line)
 	if err != nil {
-		rn.res.Note("driver: %v", err)
+		rn.res.Fatalf("Lean driver died: %v (line %q)", err, line)
 		rn.drv = nil
 		return ""
+	}
+	if a == "bad-op" {
+		rn.res.Fatalf("Lean driver answered bad-op to %q", line)
 	}
 	return a
 }
@@ -284,9 +287,6 @@ func (rn *runner) hypotheses(ep *epoch, rp Replay) {
 			if strings.HasPrefix(a, "CM:") {
 				commitAt = i
 			}
-			if strings.HasPrefix(a, "TS:") {
-				rn.res.Hit("trigger-sync")
-			}
 			f := strings.Split(a, ":")
 			if (f[0] == "BV" || f[0] == "BC" || f[0] == "BP") && uint64(atoi(f[1])) != c.HBefore {
 				rn.res.Mismatch(lib.Mismatch{Sig: "hyp-vote-not-at-current-height", Input: rp, Impl: c})
@@ -295,12 +295,43 @@ func (rn *runner) hypotheses(ep *epoch, rp Replay) {
 		if nW > 1 {
 			rn.res.Mismatch(lib.Mismatch{Sig: "hyp-two-log-entries-for-one-input", Input: rp, Impl: c})
 		}
-		if !c.Replay && nW == 0 && len(c.Acts) > 0 {
-			if cfg := ep.cfg; cfg.AppMode == "store" && len(ep.app.lostValid) > 0 {
+		if nW == 1 {
+			ent := c.Acts[0][2:]
+			if c.Kind != "start" && !strings.HasPrefix(c.In, "s:") && ent != c.In {
+				rn.res.Mismatch(lib.Mismatch{Sig: "hyp-logged-entry-differs-from-input", Input: rp, Impl: c})
+			}
+			if uint64(entryHeight(ent)) < c.HBefore {
+				rn.res.Mismatch(lib.Mismatch{Sig: "hyp-entry-height-below-current", Input: rp, Impl: c})
+			}
+			if strings.HasPrefix(ent, "t:") && uint64(entryHeight(ent)) != c.HBefore {
+				rn.res.Mismatch(lib.Mismatch{Sig: "hyp-timeout-entry-not-current-height", Input: rp, Impl: c})
+			}
+		}
+		if c.Sync != "" {
+			rn.res.Hit("trigger-sync")
+			if nW == 0 {
+				// the quorum-completing precommit of a future height is counted by the vote counter
+				// (a second delivery is rejected as duplicate) but no WriteWAL is returned for it
+				violate(lib.Violation{Sig: "future-quorum-precommit-counted-but-not-logged",
+					What:   fmt.Sprintf("at height %d input %s returned only %s: the vote is stored in the vote counter, nothing is written to the log", c.HBefore, c.In, c.Sync),
+					Replay: rp})
+			}
+		}
+		if nW == 0 && len(c.Acts) > 0 {
+			involvesRestored := false
+			for _, v := range ep.app.restored {
+				for _, a := range c.Acts {
+					if strings.HasSuffix(a, ":"+strconv.FormatUint(v, 10)) {
+						involvesRestored = true
+					}
+				}
+			}
+			if ep.cfg.AppMode == "store" && involvesRestored {
 				// consequence of the lost proposal store: validity of a replayed proposal flips back to
 				// "valid" when the build result arrives again, the rules become enabled without any
 				// input being processed, and the next input of any kind (e.g. an obsolete timeout,
-				// which is not logged) fires them
+				// which is not logged) fires them — only filed here when the actions are for a value
+				// that was lost and has arrived again in this process instance
 				violate(lib.Violation{Sig: "unlogged-input-made-visible-proposal-store-not-durable",
 					What: fmt.Sprintf("input %s wrote nothing to the log but produced %v", c.In, c.Acts), Replay: rp})
 			} else {
@@ -317,10 +348,11 @@ func (rn *runner) hypotheses(ep *epoch, rp Replay) {
 }
 
 type lineage struct {
-	aliased bool // an ancestor logged a Start entry with a height other than the one it started
-	votes   []vote
-	props   map[[2]int][]string
-	kills   []Kill
+	unlogged bool // an ancestor counted a future-height precommit without logging it (F4)
+	aliased  bool // an ancestor logged a Start entry with a height other than the one it started
+	votes    []vote
+	props    map[[2]int][]string
+	kills    []Kill
 }
 
 func (l lineage) extend(ep *epoch, k int, kl Kill) lineage {
@@ -360,18 +392,32 @@ func (rn *runner) oracle(cfg *Cfg, ep *epoch, lin lineage, rp Replay, bootEffect
 			// the specific known way: the node is the proposer of (h, r); its own value is not in the
 			// log; replay asked the application again and RE-PROPOSED A DIFFERENT VALUE for (h, r)
 			// (both proposals were observed at the broadcaster)
-			// other known way (mode "store"): during this process' replay the application judged a
-			// value invalid ONLY because the in-memory proposal store of the dead process is gone
-			if len(ep.app.lostValid) > 0 {
-				sig += "-proposal-store-not-durable"
+			// Attribution to a known cause needs direct evidence that THIS conflict has that cause.
+			// (F3, mode "store") one of the two ids is a value the application of this process
+			// instance judged invalid only because the proposal store of the dead process is gone:
+			lost := func(id string) bool {
+				for _, l := range ep.app.lostValid {
+					if id == strconv.FormatUint(l, 10) {
+						return true
+					}
+				}
+				return false
 			}
-			// ... in this round or an earlier round of the same height (the changed proposal changes
-			// what the node locks on, hence its votes in all later rounds of the height)
-			for r0 := 0; r0 <= w.r; r0++ {
-				key := [2]int{w.h, r0}
-				if len(ep.app.lostValid) == 0 && cfg.proposerIdx(uint64(w.h), r0) == cfg.Me && differs(lin.props[key], own[key]) {
-					sig += "-own-proposal-value-changed"
-					break
+			if cfg.AppMode == "store" && (lost(v.id) || lost(w.id)) {
+				sig += "-proposal-store-not-durable"
+			} else if cfg.AppMode == "fresh" {
+				// (F1, mode "fresh") the node is the proposer of this round or an earlier round of the
+				// height, both differing own proposals for that round were seen at the broadcaster, and
+				// — if it is this very round — the votes are for those values (or nil against one)
+				for r0 := 0; r0 <= w.r; r0++ {
+					key := [2]int{w.h, r0}
+					if cfg.proposerIdx(uint64(w.h), r0) != cfg.Me || !differs(lin.props[key], own[key]) {
+						continue
+					}
+					if r0 < w.r || isOneOf(v.id, lin.props[key]) || isOneOf(w.id, own[key]) {
+						sig += "-own-proposal-value-changed"
+						break
+					}
 				}
 			}
 			violate(lib.Violation{Sig: sig, What: fmt.Sprintf("before the crash the node broadcast %s h=%d r=%d id=%s, after recovery it broadcast %s h=%d r=%d id=%s",
@@ -412,6 +458,9 @@ func (rn *runner) oracle(cfg *Cfg, ep *epoch, lin lineage, rp Replay, bootEffect
 		res.Compared(1)
 		if ep.dumpBoot != twin {
 			sig := "recovered-state-differs-from-uncrashed-twin"
+			if lin.unlogged {
+				sig += f4
+			}
 			if lin.aliased {
 				// known cause: the Start entry of a height that committed inside ProcessStart carries
 				// the NEXT height, survives the prune and is replayed as the start of the next height
@@ -425,7 +474,7 @@ func (rn *runner) oracle(cfg *Cfg, ep *epoch, lin lineage, rp Replay, bootEffect
 	storeLost := len(ep.app.lostValid) > 0
 	for _, e := range ep.errs {
 		kind := strings.SplitN(e, ":", 2)[0]
-		if ep.failAt >= 0 && kind == "run" {
+		if ep.failAt >= 0 && kind == "run" && !strings.Contains(e, "panic") {
 			continue // the injected fault makes Run return its error: expected
 		}
 		if cfg.AppMode == "store" && (kind == "commitlistener" || (kind == "run" && strings.Contains(e, "commit listener failed"))) {
@@ -437,6 +486,29 @@ func (rn *runner) oracle(cfg *Cfg, ep *epoch, lin lineage, rp Replay, bootEffect
 		violate(lib.Violation{Sig: "driver-error-" + kind, What: e, Replay: rp})
 	}
 	_ = storeLost
+}
+
+// unloggedQuorumVote: among the first n calls of the process, one returned TriggerSync without a
+// WriteWAL — the machine counted a precommit that is not in the log (F4). From then on the log
+// does not determine the machine's state, which is what the state-equality oracles presuppose.
+func unloggedQuorumVote(ep *epoch, n int) bool {
+	for j := 0; j < n && j < len(ep.calls); j++ {
+		if c := ep.calls[j]; c.Sync != "" && (len(c.Acts) == 0 || !strings.HasPrefix(c.Acts[0], "W/")) {
+			return true
+		}
+	}
+	return false
+}
+
+const f4 = "-future-quorum-precommit-not-logged"
+
+func isOneOf(x string, xs []string) bool {
+	for _, y := range xs {
+		if x == y {
+			return true
+		}
+	}
+	return false
 }
 
 // differs: both non-empty and some value of ys is not among xs.
@@ -577,12 +649,6 @@ func (rn *runner) explore(cfg *Cfg, script []Input, startIdx int, ep *epoch, lin
 				}
 				delete(armed, script[i].String())
 			}
-			// a node that is behind must not see a precommit quorum of a future height: that starts
-			// the block-sync path, which needs a p2p block fetcher (outside this harness)
-			if script[i].K == "c" && script[i].H > uint64(rec.real.Height()) && script[i].Sender != firstOther(cfg) {
-				rn.res.Hit("continuation-future-precommit-skipped")
-				continue
-			}
 			if err := rec.feed(i, script[i]); err != nil {
 				violate(lib.Violation{Sig: "driver-hangs-after-recovery", What: err.Error(), Replay: rp})
 				break
@@ -602,6 +668,11 @@ func (rn *runner) explore(cfg *Cfg, script []Input, startIdx int, ep *epoch, lin
 		rn.hypotheses(rec, rp)
 		twin := twinDump(cfg, ep.boot, append(append([]string{}, ep.loaded...), ep.appended[:ep.flushedN[k]]...))
 		nl.aliased = lin.aliased || aliasedStart(ep)
+		callsBefore := len(ep.calls)
+		if k < n {
+			callsBefore = ep.effects[k].Call + 1
+		}
+		nl.unlogged = lin.unlogged || unloggedQuorumVote(ep, callsBefore)
 		if os.Getenv("C13_DEBUG") != "" {
 			fmt.Fprintf(os.Stderr, "KILL %+v parent effects[:k]=%s\n  image chain=%d loaded=%v\n  durable(recording order)=%v\n  rec calls:\n", kl, effToks(ep.effects[:k]), ep.chainAt[k], rec.loaded,
 				append(append([]string{}, ep.loaded...), ep.appended[:ep.flushedN[k]]...))
@@ -610,6 +681,45 @@ func (rn *runner) explore(cfg *Cfg, script []Input, startIdx int, ep *epoch, lin
 			}
 		}
 		rn.oracle(cfg, rec, nl, rp, bootBoundary(rec), twin)
+		// Recovered state against the UNCRASHED LIVE process: when nothing was pending at the crash
+		// point, the restarted node must be exactly where the dead process was — after the call in
+		// progress if its entry had been appended (then it was flushed), else after the previous call.
+		if cfg.AppMode == "stable" && ep.pendAt[k] == 0 && len(ep.calls) > 0 {
+			ci := len(ep.calls) - 1
+			if k < n {
+				ci = ep.effects[k].Call
+				if k == 0 || ep.effects[k-1].Call != ci {
+					ci-- // no effect of that call performed yet: its entry is not in the log
+				}
+			}
+			ref := ""
+			if ci >= 0 {
+				ref = ep.calls[ci].Dump
+			}
+			if bb := bootBoundary(ep); k <= bb && bb > 0 {
+				// the parent was itself replaying: replay writes nothing, a node restarted on the same
+				// log replays ALL of it and must end where the parent's replay ended
+				ref, ci = ep.dumpBoot, len(ep.calls)-1
+				for j, c := range ep.calls {
+					if !c.Replay {
+						ci = j - 1
+						break
+					}
+				}
+			}
+			if ref != "" {
+				rn.res.Compared(1)
+				if ref != rec.dumpBoot {
+					sig := "recovered-state-differs-from-live-run"
+					if nl.unlogged {
+						sig += f4
+					}
+					violate(lib.Violation{Sig: sig, What: "nothing was pending at the crash point, yet the restarted node is not in the state the dead process was in: " +
+						diffHint(rec.dumpBoot, ref), Replay: rp})
+				}
+				rn.res.Hit("live-state-compared")
+			}
+		}
 		// statistics
 		rn.res.Case(fmt.Sprintf("%v|%v|%v", *cfg, script, nl.kills), len(rec.loaded) > 0 || len(nl.votes) > 0)
 		rn.res.Hit(fmt.Sprintf("crash-depth-%d", depth+1))
@@ -677,11 +787,16 @@ func (rn *runner) graceful(cfg *Cfg, script []Input, ep *epoch) {
 	}
 	rn.hypotheses(rec, rp)
 	lin := lineage{props: map[[2]int][]string{}}.extend(ep, len(ep.effects), Kill{K: len(ep.effects)})
+	lin.unlogged = unloggedQuorumVote(ep, len(ep.calls))
 	rn.oracle(cfg, rec, lin, rp, bootBoundary(rec), twinDump(cfg, ep.boot, append(append([]string{}, ep.loaded...), ep.appended...)))
 	if cfg.AppMode == "stable" {
 		rn.res.Compared(1)
 		if live := dumpSM(ep.real); live != rec.dumpBoot {
-			violate(lib.Violation{Sig: "state-lost-across-regular-restart",
+			sig := "state-lost-across-regular-restart"
+			if unloggedQuorumVote(ep, len(ep.calls)) {
+				sig += f4
+			}
+			violate(lib.Violation{Sig: sig,
 				What: "after a regular stop and restart the replayed state machine differs from the one that was stopped: " + diffHint(rec.dumpBoot, live), Replay: rp})
 		}
 	}
@@ -698,7 +813,7 @@ func (rn *runner) faulty(cfg *Cfg, script []Input, ref *epoch, k int) {
 	rp := Replay{Cfg: *cfg, Script: script, Note: fmt.Sprintf("injected fault at effect %d (%s)", k, ref.effects[k].Tok)}
 	ep, err := startEpoch(cfg, rn.dir(), "", cfg.C0, 0, k)
 	if ep == nil {
-		rn.res.Note("faulty: %v", err)
+		rn.res.Fatalf("fault-injection run could not start: %v", err)
 		return
 	}
 	defer ep.cleanup()
@@ -714,7 +829,7 @@ func (rn *runner) faulty(cfg *Cfg, script []Input, ref *epoch, k int) {
 	}
 	stopped := false
 	for _, e := range ep.errs {
-		if strings.HasPrefix(e, "run: ") {
+		if strings.HasPrefix(e, "run: ") && !strings.Contains(e, "panic") {
 			stopped = true
 		}
 	}
@@ -738,7 +853,7 @@ func (rn *runner) faulty(cfg *Cfg, script []Input, ref *epoch, k int) {
 		return
 	}
 	for i := 0; i < len(script); i++ { // everything is delivered again (peers resend)
-		if script[i].K == "t" || (script[i].K == "c" && script[i].H > uint64(rec.real.Height()) && script[i].Sender != firstOther(cfg)) {
+		if script[i].K == "t" {
 			continue
 		}
 		if rec.feed(i, script[i]) != nil {
@@ -747,6 +862,7 @@ func (rn *runner) faulty(cfg *Cfg, script []Input, ref *epoch, k int) {
 	}
 	rec.stop()
 	lin := lineage{props: map[[2]int][]string{}}.extend(ep, len(ep.effects), Kill{K: k})
+	lin.unlogged = unloggedQuorumVote(ep, len(ep.calls))
 	// Close has flushed whatever was pending, and a refused commit must not have pruned anything:
 	// the restarted node must be where an uncrashed machine fed ALL logged inputs is
 	rn.oracle(cfg, rec, lin, rp, bootBoundary(rec), twinDump(cfg, ep.boot, ep.appended))
@@ -799,6 +915,10 @@ func (rn *runner) rootCase(cfg *Cfg, script []Input, genLen int, r *lib.RNG, fix
 			in := w.next()
 			script = append(script, in)
 			if err := ep.feed(i, in); err != nil {
+				if err == errNoTimeoutChannel {
+					rn.res.Fatalf("%v", err)
+					break
+				}
 				violate(lib.Violation{Sig: "driver-hangs", What: err.Error(), Replay: Replay{Cfg: *cfg, Script: script}})
 				break
 			}
@@ -806,6 +926,10 @@ func (rn *runner) rootCase(cfg *Cfg, script []Input, genLen int, r *lib.RNG, fix
 	} else {
 		for i, in := range script {
 			if err := ep.feed(i, in); err != nil {
+				if err == errNoTimeoutChannel {
+					rn.res.Fatalf("%v", err)
+					break
+				}
 				violate(lib.Violation{Sig: "driver-hangs", What: err.Error(), Replay: Replay{Cfg: *cfg, Script: script[:i+1]}})
 				break
 			}
@@ -831,7 +955,7 @@ func (rn *runner) rootCase(cfg *Cfg, script []Input, genLen int, r *lib.RNG, fix
 		if !first && len(names) > 0 {
 			rn.res.Hit("long-run-log-file-000001-removed-by-cleanup")
 		} else {
-			rn.res.Note("long run: the log store's cleanup did not remove the first log file (%d files)", len(names))
+			rn.res.Fatalf("long run: the log store's cleanup did not remove the first log file (%d files): the family does not reach the situation it is for", len(names))
 		}
 	}
 	// statistics of the uncrashed run
@@ -872,7 +996,13 @@ func (rn *runner) rootCase(cfg *Cfg, script []Input, genLen int, r *lib.RNG, fix
 	if cfg.AppMode == "stable" {
 		rn.res.Compared(1)
 		if live, tw := dumpSM(ep.real), twinDump(cfg, ep.boot, ep.appended); live != tw {
-			rn.res.Mismatch(lib.Mismatch{Sig: "hyp-live-state-not-function-of-log", Input: rp, Impl: diffHint(live, tw)})
+			if unloggedQuorumVote(ep, len(ep.calls)) {
+				rn.res.Hit("root-run-with-unlogged-future-quorum-precommit")
+				violate(lib.Violation{Sig: "live-state-not-function-of-log" + f4,
+					What: "the live machine's state is not what a fresh machine reaches on the node's own log: " + diffHint(live, tw), Replay: rp})
+			} else {
+				rn.res.Mismatch(lib.Mismatch{Sig: "hyp-live-state-not-function-of-log", Input: rp, Impl: diffHint(live, tw)})
+			}
 		}
 	}
 	rn.res.Case(fmt.Sprintf("%v|%v", *cfg, script), len(ep.effects) > 2)
@@ -1022,10 +1152,13 @@ func main() {
 			err = json.Unmarshal(b, &file)
 		}
 		if err != nil {
-			res.Note("cannot read replay: %v", err)
+			res.Fatalf("cannot read replay: %v", err)
 			lib.Finish(f, res)
 		}
-		drv, _ := lib.StartDriver(f.Driver)
+		drv, derr := lib.StartDriver(f.Driver)
+		if derr != nil {
+			res.Fatalf("Lean driver did not start: %v", derr)
+		}
 		rn := &runner{f: f, res: res, drv: drv, base: base}
 		kills := file.Replay.Kills
 		if kills == nil {
@@ -1082,7 +1215,7 @@ func main() {
 			defer wg.Done()
 			drv, err := lib.StartDriver(f.Driver)
 			if err != nil {
-				res.Note("driver: %v", err)
+				res.Fatalf("Lean driver did not start: %v", err)
 			}
 			rn := &runner{f: f, res: res, drv: drv, base: filepath.Join(base, fmt.Sprintf("w%d", w))}
 			for j := range ch {
